@@ -21,6 +21,8 @@ pub struct Leaf {
     pub free: bool,
     pub tail: bool,
     pub s: String,
+    #[serde(default)]
+    pub ew: usize,
 }
 
 #[derive(Debug, Clone, Copy, Default)]
@@ -383,6 +385,86 @@ pub fn mutate(leaves: &[Leaf], lo: &Located, msg: &[u8], i: usize, m: &str) -> O
             }
             Some(out)
         }
+        "list_plus1" | "list_minus1" => {
+            // the list's byte length stops being a multiple of its element width; all enclosing lengths follow
+            let end = loc.off + loc.w;
+            if m == "list_minus1" && loc.w == 0 {
+                return None;
+            }
+            let mut out;
+            let delta: i64;
+            if m == "list_plus1" {
+                out = msg[..end].to_vec();
+                out.push(0xA5);
+                out.extend_from_slice(&msg[end..]);
+                delta = 1;
+            } else {
+                out = msg[..end - 1].to_vec();
+                out.extend_from_slice(&msg[end..]);
+                delta = -1;
+            }
+            fix_containing(&mut out, loc.off, end, delta, usize::MAX);
+            Some(out)
+        }
+        "swap" => {
+            let g = innermost_group(leaves, lo, i)?;
+            let parent = &g.path[..g.path.len() - 1];
+            let next = lo.groups.iter().find(|h| {
+                h.start == g.end && h.end > h.start && h.path.len() == g.path.len() && &h.path[..h.path.len() - 1] == parent && leaves[h.first_leaf].el
+            })?;
+            let mut out = msg[..g.start].to_vec();
+            out.extend_from_slice(&msg[next.start..next.end]);
+            out.extend_from_slice(&msg[g.start..g.end]);
+            out.extend_from_slice(&msg[next.end..]);
+            if out == msg {
+                return None;
+            }
+            Some(out)
+        }
+        "nest" => {
+            // the element placed inside its own (opaque) value, level after level
+            let g = innermost_group(leaves, lo, i)?.clone();
+            let v = (g.first_leaf..leaves.len())
+                .take_while(|&j| is_prefix(&g.path, &leaves[j].g))
+                .find(|&j| (leaves[j].k == "var" || leaves[j].k == "rest") && leaves[..j].iter().any(|l| l.k == "len" && l.of == leaves[j].n))?;
+            let mut cur = msg.to_vec();
+            let mut cur_lo = lo.clone();
+            let mut levels = 0;
+            for _ in 0..6 {
+                let gg = cur_lo.groups.iter().rev().find(|h| h.path == g.path && h.first_leaf == g.first_leaf)?.clone();
+                let vl = cur_lo.locs[v];
+                let elem = cur[gg.start..gg.end].to_vec();
+                let mut next = cur[..vl.off].to_vec();
+                next.extend_from_slice(&elem);
+                next.extend_from_slice(&cur[vl.off + vl.w..]);
+                let delta = elem.len() as i64 - vl.w as i64;
+                // repair with the relations of the current layout
+                for (j, l) in leaves.iter().enumerate() {
+                    if !(l.k == "len" || (l.k == "count" && l.unit > 0)) {
+                        continue;
+                    }
+                    if let Some((s0, e0)) = governed(leaves, &cur_lo, j) {
+                        let lj = cur_lo.locs[j];
+                        if s0 <= vl.off && vl.off + vl.w <= e0 && lj.off + lj.w <= vl.off {
+                            let val = encode_len(l, lj, (e0 - s0) as i64 + delta);
+                            set_val(&mut next, l, lj, val);
+                        }
+                    }
+                }
+                match locate(leaves, &next) {
+                    Ok(l2) if next.len() < 60_000 => {
+                        cur = next;
+                        cur_lo = l2;
+                        levels += 1;
+                    }
+                    _ => break,
+                }
+            }
+            if levels == 0 {
+                return None;
+            }
+            Some(cur)
+        }
         "dup_fill_empty" => {
             // the smallest legal instance of the element (every variable part emptied), repeated to ~60 KB
             let g = innermost_group(leaves, lo, i)?.clone();
@@ -517,6 +599,18 @@ pub fn text_mutate(text: &str, leaf: &Leaf, m: &str) -> Option<String> {
                 return None;
             }
             Some(replace(""))
+        }
+        "swap" => {
+            // the line exchanged with the one that follows it
+            let rest = &text[le..];
+            let nl = if rest.starts_with("\r\n") { 2 } else if rest.starts_with('\n') { 1 } else { return None };
+            let after = &rest[nl..];
+            let next_len = after.find(['\r', '\n']).unwrap_or(after.len());
+            if next_len == 0 {
+                return None;
+            }
+            let next = &after[..next_len];
+            Some(format!("{}{}{}{}{}", &text[..ls], next, &rest[..nl], &text[ls..le], &after[next_len..]))
         }
         "dup" | "dup_fill" => {
             let line = &text[ls..le];
